@@ -51,6 +51,12 @@ pub fn issue_creds(ctx: &mut Ctx, n: usize, tag: u64) -> Vec<Cred> {
         if i % 6 == 5 && !specials.is_empty() {
             // names that look like syntax, a user-supplied cnf, deep chains (rotating with the seed)
             f = specials[(i / 6 + ctx.seed as usize) % specials.len()].clone();
+            if i == 5 {
+                // always among them: a user-supplied top-level cnf object with selectively disclosable members inside
+                if let Some(c) = specials.iter().find(|x| x.issue.claims.get("cnf").is_some() && matches!(x.issue.strategy, Strategy::Custom(_))) {
+                    f = c.clone();
+                }
+            }
             ctx.count("credential.special_claim_set");
         }
         // a credential without any hidden claim exercises only the forged / garbage classes: keep a few
